@@ -42,7 +42,8 @@ type InCase struct {
 	RS h.Str `json:"rs,omitempty"`
 	FS h.Str `json:"fs,omitempty"`
 	// how the program takes its records: "" the main loop, "getline" a plain-getline loop in BEGIN,
-	// "mixed" the main loop plus a plain getline in every action (every second record arrives by getline)
+	// "mixed" the main loop plus a plain getline in every action (every second record arrives by getline),
+	// "dash" a loop of getline < "-" in BEGIN (the redirected form reading the same bytes)
 	Reader string `json:"reader,omitempty"`
 }
 
@@ -91,6 +92,10 @@ func probeSource(header bool, reader string) string {
 		return dump + "BEGIN { while ((getline) > 0) dump() }\n" + end
 	case "mixed":
 		return dump + "{ dump(); if ((getline) > 0) dump() }\n" + end
+	case "dash":
+		// the redirected form: standard input named "-" (so that the delivery stays under control);
+		// it does not count records, the probe does
+		return dump + "BEGIN { while ((getline < \"-\") > 0) { NR++; dump() } }\n" + end
 	}
 	return dump + "{ dump() }\n" + end
 }
@@ -530,7 +535,7 @@ func genIn(t *rapid.T) InCase {
 	}
 	c.Header = rapid.IntRange(0, 3).Draw(t, "header") == 0
 	c.BOM = rapid.IntRange(0, 3).Draw(t, "bom") == 0
-	c.Reader = rapid.SampledFrom([]string{"", "", "", "getline", "mixed"}).Draw(t, "reader")
+	c.Reader = rapid.SampledFrom([]string{"", "", "", "getline", "mixed", "dash"}).Draw(t, "reader")
 	if rapid.IntRange(0, 3).Draw(t, "setrs") == 0 {
 		c.RS = h.Str(rapid.SampledFrom([]string{"empty", ";", "a", "x+", "\n\n"}).Draw(t, "rs"))
 	}
